@@ -158,6 +158,9 @@ J gen(uint64_t seed, bool thorough) {
       if (q != std::string::npos) bs.config.replace(q, bs.config.find('\n', q) - q, "  newHillFrequency 1");
       if (bs.config.find("writeHillsTrajectory") == std::string::npos) bs.config.insert(bs.config.rfind("}"), "  writeHillsTrajectory on\n");
     }
+    // a third of the metadynamics biases are set up for multiple walkers (peers absent): hills and states also go to the replica files
+    if (t.compare(0, 4, "meta") == 0 && r.chance(0.33))
+      bs.config.insert(bs.config.rfind("}"), "  multipleReplicas on\n  replicaID w0\n  replicasRegistry /simfs/shared/registry_b" + std::to_string(b) + ".txt\n  replicaUpdateFrequency " + std::to_string(r.range(3, 7)) + "\n");
     // TI estimators need total forces, which combinations of several components do not provide
     while ((p = bs.config.find("  writeTI")) != std::string::npos) bs.config.erase(p, bs.config.find('\n', p) - p + 1);
     config += bs.config;
